@@ -1,14 +1,17 @@
 #!/bin/sh
-# record_mutants.sh [tier]  — the official run: every seeded change is applied
-# to /repo (git apply), the check of the property it targets is run, and the
-# change is undone straight afterwards. Results go to seeded/RESULTS.txt.
-T=${1:-quick}
+# record_mutants.sh [tier] [wave]  — the official run: every seeded change (of
+# the given wave, e.g. w8; all waves when omitted) is applied to /repo (git
+# apply), the check of the property it targets is run, and the change is undone
+# straight afterwards. Results go to seeded/RESULTS_<tier>.txt (lines of the
+# changes that are run are replaced, the others stay).
+T=${1:-quick}; W=${2:-}
 cd /verif || exit 2
-: > seeded/RESULTS_$T.txt
-for d in seeded/C*-w*-*; do
+touch seeded/RESULTS_$T.txt
+for d in seeded/C*-${W:-w*}-*; do
   p=$(basename $d | cut -d- -f1)
   r=$(tools/run_mutant.sh $d $p $T 1 | head -3 | tr '\n' ' ' | cut -c1-400)
   case "$r" in MISSED*) r2=$(tools/run_mutant.sh $d $p $T 2 | head -3 | tr '\n' ' ' | cut -c1-400); r="$r | $r2";; esac
+  grep -v " $(basename $d) by $p " seeded/RESULTS_$T.txt > seeded/RESULTS_$T.tmp; mv seeded/RESULTS_$T.tmp seeded/RESULTS_$T.txt
   echo "$r" | tee -a seeded/RESULTS_$T.txt
 done
 git -C /repo status --short
